@@ -64,30 +64,107 @@ func checkC17(c *Ctx) {
 		return
 	}
 	checkEncodeDst(c, p, enc, "C17-R7")
-	checkEncodeDst(c, p, can, "C17-R7")
-	fa := encPredAtoms(enc)
-	ca := encPredAtoms(can)
-	wantFail := []string{"T#2 != nil", "T#0 == 0", "out[0] == 26"}
-	okF := true
-	for _, w := range wantFail {
-		if !fa[w] {
-			okF = false
+	if len(callsIn(can, func(_ string, cc *ssa.CallCommon) bool { return cc.IsInvoke() && cc.Method.Name() == "Transform" })) > 0 {
+		checkEncodeDst(c, p, can, "C17-R7")
+	} else {
+		eachInstr(can, func(in ssa.Instruction) {
+			if cc := callCommon(in); cc != nil {
+				if h := cc.StaticCallee(); h != nil && h.Pkg == p.Tcell && len(h.Blocks) > 0 && len(callsIn(h, func(_ string, c2 *ssa.CallCommon) bool { return c2.IsInvoke() && c2.Method.Name() == "Transform" })) > 0 {
+					c.asRule("C17-R7", "C17-R7", func() { checkEncodeDst(c, p, h, "C17-R7") })
+				}
+			}
+		})
+	}
+	// Which bytes count as "the encoder could not do it" is decided where its output is *used*: the
+	// append of the encoded bytes (encodeRune) and the answer "yes" (CanDisplay, or the helper holding its
+	// encoder call) must each sit behind all three success tests — no error, a non-zero length, a first
+	// byte other than SUB — however the function is laid out (failure branch first, or success first with
+	// an early return).  The two functions then agree because they pass the same three tests.
+	success := []string{"T#2 == nil", "T#0 != 0", "out[0] != 26"}
+	encAtoms := func(gs []rawGuard) map[string]bool {
+		out := map[string]bool{}
+		for _, g := range gs {
+			bo, ok := g.Cond.(*ssa.BinOp)
+			if !ok {
+				continue
+			}
+			l, r := encNorm(bo.X), encNorm(bo.Y)
+			if !(strings.HasPrefix(l, "T#") || l == "out[0]") {
+				continue
+			}
+			op := bo.Op.String()
+			if !g.Positive {
+				op = negOp(op)
+			}
+			if l == "T#0" && op == ">" && r == "0" {
+				op = "!="
+			}
+			out[l+" "+op+" "+r] = true
 		}
+		return out
 	}
-	c.Check(okF && len(fa) == 3, "C17-R1", "encodeRune:failure-predicate", p.pos(enc.Pos()), fmt.Sprintf("conditions on the encoder's results: %v (want error set, zero length, SUB first byte)", sortedKeys(fa)))
-	// negation
-	neg := map[string]bool{}
-	for a := range fa {
-		parts := strings.SplitN(a, " ", 3)
-		neg[parts[0]+" "+negOp(parts[1])+" "+parts[2]] = true
-	}
-	same := len(neg) == len(ca)
-	for a := range ca {
-		if !neg[a] {
-			same = false
+	hasAll := func(m map[string]bool) bool {
+		for _, w := range success {
+			if !m[w] {
+				return false
+			}
 		}
+		return true
 	}
-	c.Check(same, "C17-R2", "CanDisplay≡¬failure", p.pos(can.Pos()), fmt.Sprintf("CanDisplay tests %v; negation of encodeRune's failure tests %v", sortedKeys(ca), sortedKeys(neg)))
+	// encodeRune: the append of the encoder's output
+	okF, detailF := false, "no append of the encoder's output found"
+	eachInstr(enc, func(in ssa.Instruction) {
+		call, ok := in.(*ssa.Call)
+		if !ok {
+			return
+		}
+		if b, isB := call.Call.Value.(*ssa.Builtin); !isB || b.Name() != "append" || len(call.Call.Args) != 2 {
+			return
+		}
+		sl, isSl := call.Call.Args[1].(*ssa.Slice)
+		if !isSl || sl.High == nil || !strings.HasPrefix(encNorm(sl.High), "T#0") {
+			return
+		}
+		m := encAtoms(rawGuardsAt(call.Block()))
+		okF = hasAll(m)
+		detailF = fmt.Sprintf("the encoded bytes are appended under %v", sortedKeys(m))
+	})
+	c.Check(okF, "C17-R1", "encodeRune:failure-predicate", p.pos(enc.Pos()), detailF+" (want no error, non-zero length, first byte not SUB; everything else falls back)")
+	// CanDisplay: the function that holds the encoder call (CanDisplay itself or a helper it calls)
+	host := can
+	if len(callsIn(can, func(_ string, cc *ssa.CallCommon) bool { return cc.IsInvoke() && cc.Method.Name() == "Transform" })) == 0 {
+		eachInstr(can, func(in ssa.Instruction) {
+			if cc := callCommon(in); cc != nil {
+				if h := cc.StaticCallee(); h != nil && h.Pkg == p.Tcell && len(h.Blocks) > 0 {
+					if len(callsIn(h, func(_ string, c2 *ssa.CallCommon) bool { return c2.IsInvoke() && c2.Method.Name() == "Transform" })) > 0 {
+						host = h
+					}
+				}
+			}
+		})
+	}
+	same, detailC := false, "no 'representable' answer behind the encoder's results found"
+	for _, r := range returnsOf(host) {
+		if len(r.Results) != 1 {
+			continue
+		}
+		res := derefCell(resultOf(r, 0))
+		var m map[string]bool
+		if v, isC := constBool(res); isC {
+			if !v {
+				continue
+			}
+			m = encAtoms(rawGuardsAt(r.Block()))
+		} else {
+			m = encAtoms(append(rawGuardsAt(r.Block()), expandCond(res, true, 0)...))
+		}
+		if len(m) == 0 {
+			continue
+		}
+		same = hasAll(m)
+		detailC = fmt.Sprintf("%s answers 'representable' under %v", host.Name(), sortedKeys(m))
+	}
+	c.Check(same, "C17-R2", "CanDisplay≡¬failure", p.pos(can.Pos()), detailC+" (the same three tests as encodeRune)")
 	// ---- R1 order of lookups
 	lookups := func(fn *ssa.Function, field string) []ssa.Instruction {
 		var out []ssa.Instruction
@@ -100,7 +177,18 @@ func checkC17(c *Ctx) {
 		})
 		return out
 	}
-	acsL, fbL := lookups(enc, "acs"), lookups(enc, "fallback")
+	// the choice of the substitute may live in a helper of encodeRune (substituteFor, …)
+	subHost := enc
+	if len(lookups(enc, "acs")) == 0 {
+		eachInstr(enc, func(in ssa.Instruction) {
+			if cc := callCommon(in); cc != nil {
+				if h := cc.StaticCallee(); h != nil && h.Pkg == p.Tcell && len(h.Blocks) > 0 && len(lookups(h, "acs")) > 0 {
+					subHost = h
+				}
+			}
+		})
+	}
+	acsL, fbL := lookups(subHost, "acs"), lookups(subHost, "fallback")
 	okOrder := len(acsL) == 1 && len(fbL) == 1 && instrDominates(acsL[0], fbL[0])
 	// fallback consulted only when the acs lookup failed
 	if okOrder {
@@ -114,15 +202,31 @@ func checkC17(c *Ctx) {
 	c.Check(okOrder, "C17-R1", "encodeRune:acs-before-fallback", p.pos(enc.Pos()), "the fallback map is consulted only on the not-found edge of the ACS lookup")
 	// '?' only when the fallback lookup failed
 	okQ := false
-	eachInstr(enc, func(in ssa.Instruction) {
-		st, ok := in.(*ssa.Store)
-		if !ok {
-			return
+	notFound := func(b *ssa.BasicBlock) bool {
+		for _, g := range rawGuardsAt(b) {
+			if ex, ok := g.Cond.(*ssa.Extract); ok && len(fbL) == 1 && ex.Tuple == ssa.Value(fbL[0].(*ssa.Lookup)) && ex.Index == 1 && !g.Positive {
+				return true
+			}
 		}
-		if k, ok := constInt(st.Val); ok && k == '?' && len(fbL) == 1 {
-			for _, g := range rawGuardsAt(in.Block()) {
-				if ex, ok := g.Cond.(*ssa.Extract); ok && ex.Tuple == ssa.Value(fbL[0].(*ssa.Lookup)) && ex.Index == 1 && !g.Positive {
+		return false
+	}
+	eachInstr(subHost, func(in ssa.Instruction) {
+		switch x := in.(type) {
+		case *ssa.Store: // append(buf, '?')
+			if k, ok := constInt(x.Val); ok && k == '?' && notFound(in.Block()) {
+				okQ = true
+			}
+		case *ssa.Return: // return "?"
+			for _, r := range x.Results {
+				if s, isS := constString(r); isS && s == "?" && notFound(in.Block()) {
 					okQ = true
+				}
+				if phi, isPhi := r.(*ssa.Phi); isPhi {
+					for i, e := range phi.Edges {
+						if s, isS := constString(e); isS && s == "?" && notFound(phi.Block().Preds[i]) {
+							okQ = true
+						}
+					}
 				}
 			}
 		}
